@@ -150,6 +150,71 @@ theorem period_days_count (d s ms : Nat) :
   simp only [PeriodArg.toTicks, ticksPerSecond]
   omega
 
+/-! ## cancelled callers
+
+`runC` processes calls `(arrival, cancellation request?)`.  The rate bound and the ordering hold for
+the calls that do start, whatever is cancelled and whenever; the theorems above are the special case
+without cancellation (`no_cancellation`). -/
+
+/-- start instants of the calls that start, in arrival order -/
+def startTimesC (limit P : Nat) (calls : List (Nat × Option Cancel)) : List Nat :=
+  startsC (runC limit P init calls)
+
+/-- without cancellation requests `runC` is `run` -/
+theorem no_cancellation (limit P : Nat) (arrivals : List Nat) :
+    runC limit P init (arrivals.map fun a => (a, none)) = (run limit P init arrivals).map .ran ∧
+      startTimesC limit P (arrivals.map fun a => (a, none)) = startTimes limit P arrivals := by
+  have h := runC_none limit P arrivals init
+  refine ⟨h, ?_⟩
+  simp only [startTimesC, startTimes, h, startsC, starts, List.filterMap_map]
+  congr 1
+  funext r
+  cases r <;> rfl
+
+/-- C15.window with cancelled callers: any `limit + 1` consecutive starts span at least one period –
+a cancelled waiter gives no slot away. -/
+theorem window_cancel (limit P : Nat) (hl : 0 < limit) (calls : List (Nat × Option Cancel)) (i a b : Nat)
+    (ha : (startTimesC limit P calls)[i]? = some a)
+    (hb : (startTimesC limit P calls)[i + limit]? = some b) : a + P ≤ b := by
+  obtain ⟨s', h⟩ := runC_invS limit P hl calls init [] (invS_init limit P)
+  simp only [List.nil_append] at h
+  exact h.window i a b ha hb
+
+/-- C15.order with cancelled callers: the calls that start do so in arrival order -/
+theorem order_cancel (limit P : Nat) (hl : 0 < limit) (calls : List (Nat × Option Cancel)) :
+    (startTimesC limit P calls).Pairwise (· ≤ ·) := by
+  obtain ⟨s', h⟩ := runC_invS limit P hl calls init [] (invS_init limit P)
+  simpa [startTimesC] using h.sorted
+
+/-- C15.window, counting form, with cancelled callers -/
+theorem window_count_cancel (limit P : Nat) (hl : 0 < limit) (calls : List (Nat × Option Cancel)) (t : Nat) :
+    ((startTimesC limit P calls).filter fun s => decide (t ≤ s) && decide (s < t + P)).length ≤ limit :=
+  Haiway.Throttle.window_count limit P hl t _ (order_cancel limit P hl calls)
+    (fun i a b ha hb => window_cancel limit P hl calls i a b ha hb)
+
+/-- no call starts before it was made, cancelled callers or not -/
+theorem not_before_arrival_cancel (limit P : Nat) (calls : List (Nat × Option Cancel)) (i a t : Nat)
+    (c : Option Cancel) (hc : calls[i]? = some (a, c))
+    (ht : (runC limit P init calls)[i]? = some (.ran (.started t))) : a ≤ t :=
+  runC_ge_arrival limit P calls init i a t c hc ht
+
+/-- a caller cancelled while queued on the lock leaves everything as it found it -/
+theorem cancelled_queued_changes_nothing (limit P : Nat) (s : St) (a : Nat) (c : Option Cancel)
+    (h : (processC limit P s a c).2 = .cancelledQueued) : (processC limit P s a c).1 = s := by
+  rcases processC_shape limit P s a c with hc | hc | ⟨st, t, hc⟩ | ⟨st, hc⟩ <;> rw [hc] at h ⊢ <;> simp at h ⊢
+
+/-- a caller cancelled while sleeping for its turn never starts and appends nothing: the deque is
+what the expiry cleanup left (only entries at least one period old are gone) -/
+theorem cancelled_sleeping_keeps_deque (limit P : Nat) (s : St) (a : Nat) (c : Option Cancel)
+    (h : (processC limit P s a c).2 = .cancelledSleeping) :
+    (processC limit P s a c).1.entries = cleanup P (max a s.lockFree) s.entries := by
+  rcases processC_shape limit P s a c with hc | hc | ⟨st, t, hc⟩ | ⟨st, hc⟩ <;> rw [hc] at h ⊢ <;> simp at h ⊢
+
+/-- the caller of a cancelled waiter gets `CancelledError`, at the instant of the request -/
+theorem cancelled_caller_outcome (dur : Nat) (o : FnOut) (c : Option Cancel) :
+    callerOutcomeC .cancelledQueued dur o c = (.cancelled, some (cancelTime c)) ∧
+      callerOutcomeC .cancelledSleeping dur o c = (.cancelled, some (cancelTime c)) := ⟨rfl, rfl⟩
+
 /-! ## Non-vacuity -/
 
 /-- burst of four with limit 2, period 10: two start at once, two one period later -/
@@ -180,5 +245,20 @@ example : run 0 5 init [1, 2] = [.indexError, .indexError] := by decide
 /-- `timedelta(milliseconds=1500)` is 6 quarter seconds, `timedelta(days=1)` is a full day -/
 example : (PeriodArg.timedelta 0 0 1500).toTicks = 6 ∧ (PeriodArg.timedelta 1 0 0).toTicks = 345600 ∧
     (PeriodArg.timedelta 0 0 500).toTicks = 2 := by decide
+
+/-- limit 1, period 4: the second caller is cancelled at 2 while it sleeps for its turn; the third
+(arrived at 2) still has to wait until 4 – and a caller cancelled while queued changes nothing -/
+example :
+    runC 1 4 init [(0, none), (1, some ⟨2, false⟩), (2, none)] =
+      [.ran (.started 0), .cancelledSleeping, .ran (.started 4)] ∧
+    runC 1 4 init [(0, none), (0, none), (0, some ⟨1, false⟩), (0, none)] =
+      [.ran (.started 0), .ran (.started 4), .cancelledQueued, .ran (.started 8)] := by decide
+
+/-- tie orders of a cancellation at exactly the instant the sleeper would wake -/
+example :
+    runC 1 4 init [(0, none), (1, some ⟨4, true⟩), (2, none)] =
+      [.ran (.started 0), .cancelledSleeping, .ran (.started 4)] ∧
+    runC 1 4 init [(0, none), (1, some ⟨4, false⟩), (2, none)] =
+      [.ran (.started 0), .ran (.started 4), .ran (.started 8)] := by decide
 
 end Haiway.C15
